@@ -504,6 +504,12 @@ def generate(unit, template_path, repo=None, canary=False):
         if fi.is_fn and 'nolower' not in flags and not any('nolower' in _parse_kv(sd.arg)[1] for sd in blk['subs'] if sd.kind == 'opt'):
             lay0 = _fn_layout(body)
             if lay0['body_open'] is not None:
+                if 'R23' in rewrites:
+                    body, low23 = rw.r23_iter_mut(body, lay0['body_open'])
+                    count('R23', len(low23))
+                    if low23:
+                        fi.rewrites['R23'] = len(low23)
+                    lay0 = _fn_layout(body)
                 body, lowered = rw.r15_lower_for(body, lay0['body_open'])
                 count('R15', len(lowered))
                 if lowered:
